@@ -339,7 +339,7 @@ def run(ctx):
 
     for i, op in enumerate(ops):
         kind = op.get("op")
-        if kind not in ("new", "add", "reopen", "sched", "doc", "list", "payload", "create"):
+        if kind not in ("new", "add", "reopen", "sched", "rbwin", "doc", "list", "payload", "create"):
             continue
         if kind == "new":
             probe_phs, declared = [], {}
@@ -364,6 +364,8 @@ def run(ctx):
             if pv0.get("t") == "arr" and not pv0.get("v"):
                 prevless.add(c0["jws"]["ref"][:8])
         cur_side = side[i] if i < len(side) else None
+        if cur_side and "ibltfold=BAD" in cur_side:
+            violate("C06:iblt-differs-from-stored", "the IBLT digest is not the IBLT of the stored transactions (a transaction that is not on the DAG is in it, or one is missing)", i)
         if cur_side and " pe=" in cur_side:
             cur_side, _, pe = cur_side.partition(" pe=")
             for ev in [e for e in pe.split(",") if e]:
@@ -544,6 +546,12 @@ def run(ctx):
                     ev = [e for e in o.get("E", "").split(",") if e]
                     if not lite and (sum(1 for e in ev if e == f"gossip:t:{ref8}") != 1 or any(not e.endswith(ref8) for e in ev)):
                         violate("C06:notification-not-exactly-once", f"notifications for the admission: {ev}", i)
+        if kind == "rbwin":
+            stats["rbwin:" + o["head"]] += 1
+            ra = o["head"].split(" ")[0][5:]
+            a8 = op["calls"][0]["jws"]["ref"][:8]
+            if ra != "ok" and a8 in refs:
+                violate("C06:rejected-left-trace", f"Add(A) returned {ra} (rolled back) but A is stored", i)
         if kind == "sched":
             stats["sched"] += 1
             # every transaction of the burst that is stored obeys the clock rule
@@ -561,7 +569,7 @@ def run(ctx):
         "rejected-left-trace", "rejected-left-trace-in-digests", "payload-event-with-wrong-bytes", "readd-changed-state", "admission-not-exactly-one", "admitted-with-missing-prev", "admitted-with-wrong-clock",
         "second-root", "admitted-bad-signature", "admitted-unresolvable-kid", "stored-payload-does-not-hash-to-its-key",
         "public-tx-admitted-without-payload", "list-with-unparseable-tx-partly-admitted", "created-tx-prevs", "create-refused-valid-request", "late-payload-with-wrong-bytes-accepted", "admitted-wrong-payload", "notification-not-exactly-once", "ref-stored-twice",
-        "count-differs-from-stored", "two-roots", "digest-differs-from-stored", "inconsistent-read", "reopen-differs") or
+        "count-differs-from-stored", "two-roots", "digest-differs-from-stored", "iblt-differs-from-stored", "inconsistent-read", "reopen-differs") or
         s.startswith("C06:admitted-malformed") for s in seen_sig),
         f"{n_add} adds: {n_admit} admitted, {n_reject} rejected ({n_cancel} with the context cancelled inside the write tx), {n_readd} re-adds")
 
